@@ -324,8 +324,28 @@ fn datafrag_submessage(fragment: Vec<u8>, total: usize) -> Submessage {
   }
 }
 fn wire(subs: Vec<Submessage>, wire_len: &mut i64) -> Option<(usize, Message)> {
+  wire_flip(subs, wire_len, None)
+}
+/// Like `wire`, but one bit of the serialized bytes is flipped before parsing: byte `off` (counted from the
+/// submessage header) of submessage number `k`.  This alters what travels, not an element before serialisation: a
+/// receiver that validates a MAC over anything but the received bytes accepts it (seeded change C16-B).
+fn wire_flip(subs: Vec<Submessage>, wire_len: &mut i64, flip_at: Option<(usize, usize)>) -> Option<(usize, Message)> {
   let m = Message { header: Header::new(GuidPrefix::new(&PREFIX)), submessages: subs };
-  let bytes = m.write_to_vec_with_ctx(Endianness::LittleEndian).ok()?;
+  let mut bytes = m.write_to_vec_with_ctx(Endianness::LittleEndian).ok()?;
+  if let Some((k, off)) = flip_at {
+    let mut pos = 20usize;
+    for _ in 0..k {
+      if pos + 4 > bytes.len() {
+        return None;
+      }
+      let le = bytes[pos + 1] & 1 == 1;
+      let l = if le { u16::from_le_bytes([bytes[pos + 2], bytes[pos + 3]]) } else { u16::from_be_bytes([bytes[pos + 2], bytes[pos + 3]]) };
+      pos += 4 + l as usize;
+    }
+    if pos + off < bytes.len() {
+      bytes[pos + off] ^= 0x01;
+    }
+  }
   let n = bytes.len();
   *wire_len = n as i64;
   Message::read_from_buffer(&Bytes::from(bytes)).ok().map(|m| (n, m))
@@ -529,13 +549,19 @@ fn run_case(c: &Case) -> Obs {
         alter_footer(f, c.alter, c.pos);
         post.header.content_length = f.len() as u16;
       }
+      let mut wire_alter: Option<(usize, usize)> = None;
       match (&mut body.body, c.alter) {
         (SubmessageBody::Security(SecuritySubmessage::SecureBody(b, _)), Alter::Content) => {
           let n = b.crypto_content.data.len();
           flip(&mut b.crypto_content.data, 0, n, c.pos)
         }
         (SubmessageBody::Writer(WriterSubmessage::Data(d, _)), Alter::Content) => {
-          if let Some(p) = d.serialized_payload.as_ref() {
+          if c.pos % 2 == 1 {
+            // sign-only protection: the DATA submessage travels in clear between prefix and postfix; alter one of its
+            // received bytes that keeps it parseable: extraFlags (4, 5), readerId / writerId / writerSN (8..28)
+            const OFFS: [usize; 22] = [4, 5, 8, 9, 10, 11, 12, 13, 14, 15, 16, 17, 18, 19, 20, 21, 22, 23, 24, 25, 26, 27];
+            wire_alter = Some((1, OFFS[(c.pos / 2) % OFFS.len()]));
+          } else if let Some(p) = d.serialized_payload.as_ref() {
             let mut v = p.to_vec();
             if v.is_empty() {
               d.writer_sn = SequenceNumber::from(2i64);
@@ -548,7 +574,7 @@ fn run_case(c: &Case) -> Obs {
         }
         _ => {}
       }
-      let (wl, msg) = match wire(vec![pre, body, post], &mut o.wire_len) {
+      let (wl, msg) = match wire_flip(vec![pre, body, post], &mut o.wire_len, wire_alter) {
         Some(x) => x,
         None => {
           o.outcome = "OWireErr".into();
@@ -786,6 +812,19 @@ pub fn run(args: &Args) -> i32 {
               cases.push(c);
             }
           }
+        }
+      }
+    }
+  }
+  // sign-only submessage protection: every received byte of the DATA header that keeps it parseable is altered
+  // (pos odd selects the wire-level alteration; see Level::Submsg in run_case), incl. the extraFlags octets a
+  // re-serialisation would normalise (seeded change C16-B)
+  for kind in 1..=4u8 {
+    for oa in [false, true] {
+      for j in 0..22usize {
+        let c = Case { level: Level::Submsg, kind, origin_auth: oa, len: 12, nrecv: 2, framing: Framing::Data, alter: Alter::Content, pos: 2 * j + 1 };
+        if applicable(&c) {
+          cases.push(c);
         }
       }
     }
